@@ -88,6 +88,40 @@ func genCase(t *rapid.T, p profile) Case {
 		}
 	})
 	c.Inject = rapid.SliceOfN(inj, 0, 12).Draw(t, "inject")
+	if rapid.IntRange(0, 5).Draw(t, "family") == 0 {
+		// synchronised failures: k objects are written at the same instant and
+		// all fail their first attempts, so their retries fall due together
+		// (one round pops several retry items); some of the retries are hit by
+		// a change of the object while in flight (the status commit of the
+		// failed retry is then dropped), others fail again and are re-queued.
+		k := rapid.IntRange(2, min(3, p.maxID)).Draw(t, "syncK")
+		c.RoundSize = 5
+		var pre []Step
+		for id := 1; id <= k; id++ {
+			pre = append(pre, Step{After: 0, Kind: stUpsert, ID: id})
+		}
+		for i := range c.Script {
+			if c.Script[i].After < 200 {
+				c.Script[i].After = 200
+			}
+		}
+		c.Script = append(pre, c.Script...)
+		c.FailUpdate = map[int][]bool{}
+		for id := 1; id <= k; id++ {
+			c.FailUpdate[id] = append([]bool{true, true}, rapid.SliceOfN(rapid.Bool(), 0, 2).Draw(t, "moreFails")...)
+		}
+		c.Inject = make([]Inj, k)
+		later := rapid.Custom(func(t *rapid.T) Inj {
+			if rapid.Bool().Draw(t, "hit") {
+				return Inj{DelayMs: rapid.SampledFrom([]int{0, 2, 10}).Draw(t, "delay"), Kind: stUpsert + 1}
+			}
+			return Inj{}
+		})
+		c.Inject = append(c.Inject, rapid.SliceOfN(later, k, 3*k+2).Draw(t, "retryInject")...)
+		if rapid.Bool().Draw(t, "quiet") {
+			c.PruneMs, c.RefreshMs = 0, 0
+		}
+	}
 	if p.hookInj {
 		hs := rapid.Custom(func(t *rapid.T) Step {
 			return Step{Kind: rapid.SampledFrom([]int{-1, -1, stUpsert, stUpsert, stDelete, stDelReinsert, stStatusOnly}).Draw(t, "hkind"), ID: rapid.IntRange(1, p.maxID).Draw(t, "hid")}
